@@ -172,6 +172,25 @@ def build_jobs(pid, tier, seed, workdir):
         for s_ in scheds:
             jobs.append({"run": runno, "scen": sc, "sched": s_, "drain": True, "probes": spec.get("probes", 0), "tag": "tlc:" + name})
             runno += 1
+    # 1a. thorough: random walks of TLC (-simulate) on instances far beyond exhaustive reach
+    if thorough and not spec.get("direct"):
+        for name in ("sim_big", "sim_two"):
+            m = models.MODELS[name]; models.consts_of(name)
+            cfgp = f"{workdir}/MC_{name}_sim.cfg"
+            open(cfgp, "w").write(models.emit_cfg(m, 25))
+            env = dict(os.environ, JAVA_TOOL_OPTIONS="-DTLA-Library=" + run.VERIF + "/spec")
+            p = subprocess.run(["timeout", "600", "tlc", "-workers", "4", "-seed", str(seed), "-simulate", "num=2500", "-depth", "70",
+                                "-metadir", f"{workdir}/meta_sim_{name}", "-cleanup", "-noGenerateSpecTE", "-config", cfgp,
+                                f"{run.VERIF}/spec/mc/MC_{name}.tla"], cwd=run.VERIF + "/spec/mc", env=env, capture_output=True, text=True)
+            shutil.rmtree(f"{workdir}/meta_sim_{name}", ignore_errors=True)
+            scheds = parse_scheds(p.stdout)
+            if len(scheds) > 12000:
+                scheds = rng1.sample(scheds, 12000)
+            sched_stats["simulate:" + name] = len(scheds)
+            sc = models.scenario(name)
+            for s_ in scheds:
+                jobs.append({"run": runno, "scen": sc, "sched": s_, "drain": True, "probes": spec.get("probes", 0), "tag": "sim:" + name})
+                runno += 1
     # 1b. seeded random schedules over the instances' own scenarios (these runs are conformance-checked too)
     rng0 = random.Random(seed * 7 + 1)
     for name in mlist:
